@@ -44,6 +44,7 @@ type Case struct {
 	Compression     []uint8   `json:"compression"`
 	Exts            []ExtSpec `json:"exts"`
 	ServerName      string    `json:"server_name"`   // Config.ServerName
+	ShortReads      int       `json:"short_reads,omitempty"` // DetRand: the stream returns at most this many bytes per Read (0: all)
 	DetRand         bool      `json:"det_rand"`      // Config.Rand = deterministic harness stream (else nil = crypto/rand)
 	SessionCache    bool      `json:"session_cache"` // Config.ClientSessionCache set (a generic config knob next to the fingerprint)
 }
@@ -51,10 +52,15 @@ type Case struct {
 // ---------------------------------------------------------------------------
 // deterministic entropy stream handed to Config.Rand
 
-type stream struct{ pos int }
+// max > 0: a Read returns at most max bytes (an io.Reader may return fewer bytes than asked
+// for; the documentation of Config.Rand asks for an io.Reader, nothing more)
+type stream struct{ pos, max int }
 
 func streamByte(i int) byte { return byte((i*197 + (i>>8)*31 + 13) ^ (i >> 3)) }
 func (s *stream) Read(p []byte) (int, error) {
+	if s.max > 0 && len(p) > s.max {
+		p = p[:s.max]
+	}
 	for i := range p {
 		p[i] = streamByte(s.pos)
 		s.pos++
@@ -161,7 +167,7 @@ func (c Case) config(fp *tls.ClientFingerprintConfiguration) *tls.Config {
 	cfg := &tls.Config{Time: tlskit.Now, InsecureSkipVerify: true, ServerName: c.ServerName, ForceSuites: c.ForceSuites,
 		ClientFingerprintConfiguration: fp}
 	if c.DetRand {
-		cfg.Rand = &stream{}
+		cfg.Rand = &stream{max: c.ShortReads}
 	}
 	if c.SessionCache {
 		cfg.ClientSessionCache = tls.NewLRUClientSessionCache(4)
@@ -717,6 +723,9 @@ func gen(t *rapid.T) Case {
 		c.ServerName = genHost(t, "servername")
 	}
 	c.DetRand = rapid.IntRange(0, 2).Draw(t, "detrand") == 0
+	if c.DetRand {
+		c.ShortReads = rapid.SampledFrom([]int{0, 0, 1, 3, 7, 31}).Draw(t, "short-reads")
+	}
 	c.SessionCache = rapid.IntRange(0, 24).Draw(t, "session-cache") == 0
 
 	kinds := []string{"sni", "alpn", "curves", "points", "ticket", "sigalgs", "status", "sct", "ems", "reneg"}
@@ -744,7 +753,7 @@ func gen(t *rapid.T) Case {
 	return c
 }
 
-const rule = "fingerprint configurations: handshake version (TLS/SSL/DTLS code points and raw uint16), client random explicit (32 bytes) / absent / wrong length, with and without InsertTimestamp, session id 0..32 bytes, 1..24 implemented suites or 1..40 (occasionally 120..300) arbitrary ids with ForceSuites (incl. SCSV, GREASE, TLS 1.3 ids), compression [0], and a random-order subset of all ten built-in extension types (each at most once, NullExtension interspersed) with random contents: SNI with one host name or Autopopulate from Config.ServerName, ALPN 1..5 protocols of 1..255 arbitrary bytes, 1..6 curves, 1..3 point formats, tickets of 0..17000 bytes (a hello spanning two records included), 1..12 signature algorithms {rsa,dsa,ecdsa} x {md5..sha512}; Config.Rand nil or a deterministic stream; occasionally Config.ClientSessionCache set. Non-trivial: at least 3 extensions reach the wire; distinct by case hash"
+const rule = "fingerprint configurations: handshake version (TLS/SSL/DTLS code points and raw uint16), client random explicit (32 bytes) / absent / wrong length, with and without InsertTimestamp, session id 0..32 bytes, 1..24 implemented suites or 1..40 (occasionally 120..300) arbitrary ids with ForceSuites (incl. SCSV, GREASE, TLS 1.3 ids), compression [0], and a random-order subset of all ten built-in extension types (each at most once, NullExtension interspersed) with random contents: SNI with one host name or Autopopulate from Config.ServerName, ALPN 1..5 protocols of 1..255 arbitrary bytes, 1..6 curves, 1..3 point formats, tickets of 0..17000 bytes (a hello spanning two records included), 1..12 signature algorithms {rsa,dsa,ecdsa} x {md5..sha512}; Config.Rand nil or a deterministic stream (half of the time returning at most 1, 3, 7 or 31 bytes per Read); occasionally Config.ClientSessionCache set. Non-trivial: at least 3 extensions reach the wire; distinct by case hash"
 
 var assumptions = []string{
 	"SNIExtension carries exactly one host name without trailing dot (RFC 6066 allows one name per name_type; the encoder has no per-entry type byte); with Autopopulate the Domains list is left empty and the name comes from Config.ServerName",
